@@ -501,6 +501,32 @@ func genHistoryHooked(rng *RNG, w *hWorld, nOps int, allowRebuild bool, hook fun
 		}
 	}
 	builtBb := map[int]int{}
+	// content and its operator twin in the SAME builder: a rule / check, then the same one with one binary
+	// operator replaced by its sibling (two different elements that a careless de-duplication would merge),
+	// and sometimes an exact repetition (which the caller supplied twice and the block must carry twice)
+	ruleWithTwin := func(kind string, i int) {
+		ru := pg.rule(false)
+		emit(hOp{Kind: kind, I: i, Rule: ru})
+		if rng.Chance(30) {
+			if tw, ok := operatorTwin(rng, ru); ok {
+				emit(hOp{Kind: kind, I: i, Rule: tw})
+			}
+		}
+	}
+	checkWithTwin := func(kind string, i int) {
+		c := g.freshCheck()
+		emit(hOp{Kind: kind, I: i, Check: c})
+		if rng.Chance(30) {
+			for k := range c {
+				if tw, ok := operatorTwin(rng, c[k]); ok {
+					c2 := append(SCheck{}, c...)
+					c2[k] = tw
+					emit(hOp{Kind: kind, I: i, Check: c2})
+					break
+				}
+			}
+		}
+	}
 	for len(ops) < nOps {
 		r := rng.Intn(100)
 		switch {
@@ -512,9 +538,9 @@ func genHistoryHooked(rng *RNG, w *hWorld, nOps int, allowRebuild bool, hook fun
 			case 0, 1:
 				emit(hOp{Kind: "bufact", I: i, Fact: pg.fact()})
 			case 2:
-				emit(hOp{Kind: "burule", I: i, Rule: pg.rule(false)})
+				ruleWithTwin("burule", i)
 			default:
-				emit(hOp{Kind: "bucheck", I: i, Check: g.check()})
+				checkWithTwin("bucheck", i)
 			}
 		case r < 25 && nBu > 0:
 			emit(hOp{Kind: "buctx", I: rng.Intn(nBu), Str: []string{"", "ctx", "tenant a"}[rng.Intn(3)]})
@@ -543,9 +569,9 @@ func genHistoryHooked(rng *RNG, w *hWorld, nOps int, allowRebuild bool, hook fun
 			case 0, 1:
 				emit(hOp{Kind: "bbfact", I: j, Fact: pg.fact()})
 			case 2:
-				emit(hOp{Kind: "bbrule", I: j, Rule: pg.rule(false)})
+				ruleWithTwin("bbrule", j)
 			case 3:
-				emit(hOp{Kind: "bbcheck", I: j, Check: g.check()})
+				checkWithTwin("bbcheck", j)
 			default:
 				emit(hOp{Kind: "bbctx", I: j, Str: []string{"", "blockctx"}[rng.Intn(2)]})
 			}
